@@ -11,14 +11,15 @@ W=$(mktemp -d /var/tmp/mutant-wt.XXXXXX); rmdir "$W"
 OUT=$(mktemp -d /var/tmp/mutant-out.XXXXXX)
 git -C /repo worktree add --detach -q "$W" HEAD || exit 2
 tag=$(echo "$W" | md5sum | cut -c1-10)
-trap 'git -C /repo worktree remove --force "$W" 2>/dev/null; rm -rf "$W" "$OUT" "/verif/.bin/alt-$tag"' EXIT
+VDIR="${VERIF_DIR:-/verif}"   # which checkout of the machinery to run (an older commit for first-run records)
+trap 'git -C /repo worktree remove --force "$W" 2>/dev/null; rm -rf "$W" "$OUT" "$VDIR/.bin/alt-$tag"' EXIT
 ( cd "$W" && git apply "$PATCH" ) || { echo "PATCH-DOES-NOT-APPLY $PATCH"; exit 2; }
 if ( cd "$W" && go build ./... 2>"$OUT/build.log" && go test -count=1 ./... >"$OUT/test.log" 2>&1 ); then
   echo "suite: PASS"
 else
   echo "suite: FAIL (mutant not admissible)"; tail -n 5 "$OUT/test.log"; tail -n 5 "$OUT/build.log"
 fi
-cd /verif
+cd "$VDIR"
 for c in "$@"; do
   out=$(VERIF_REPO="$W" VERIF_OUT="$OUT" VERIF_DEADLINE_S=${VERIF_DEADLINE_S:-600} ./run.sh "$c" ${TIER:-quick} 2>&1)
   rc=$?
